@@ -268,8 +268,17 @@ func checkC07(cr *checkResult) {
 				}
 			}
 		case isExecKind(op.Kind):
-			if executedForSure(r) {
+			// "executed (successfully or not)": any Execute* call on a member
+			// of the set freezes it, also one that fails because the member
+			// has no body yet.  Clone is only required to fail once a member
+			// was certainly analysed (executedForSure).
+			if r.Skipped == "" && (r.Exists || executedForSure(r)) {
 				frozen[op.Set] = true
+				if !executedForSure(r) {
+					cr.note("freeze_by_failed_execution_without_analysis")
+				}
+			}
+			if executedForSure(r) {
 				executed[op.Set] = true
 			}
 		}
